@@ -24,6 +24,7 @@ D1_GUARD_NEW = """        (Int(w1, _), Int(w2, _)) if w1 == w2 => { true }
 
 def build():
     U = Unit('TYPES', props=['C20', 'C08'])
+    U.default_closures = True     # rule-based D3/D16 (vlib/closures.py) applies to every function of this unit
     add(U)
     return U
 
@@ -41,6 +42,7 @@ def add(U, with_lemmas=True, arith_op=True):
     U.prelude('contracts/types.prelude.rs')
 
     f.impl('ArrayDims', [
+        ('dims', dict(ret='r', props=['C20'])),
         ('num_dims', dict(ret='r', props=['C20'], spec='''
 ensures r == (match *self { ArrayDims::D1(..) => 1usize, ArrayDims::D2(..) => 2usize, ArrayDims::D3(..) => 3usize }),''')),
     ])
@@ -52,6 +54,7 @@ ensures r == (*self is Bit || *self is Int || *self is UInt || *self is Float ||
         ('width', dict(ret='r', props=['C20', 'C08', 'C09'], spec='ensures r == sp_width(*self),')),
         ('is_const', dict(ret='r', props=['C20', 'C08', 'C09', 'C13'], spec='ensures r == sp_is_const(*self),')),
         ('is_quantum', dict(ret='r', props=['C13'], spec='ensures r == (*self is Qubit || *self is QubitArray || *self is HardwareQubit),')),
+        ('dims', dict(ret='r', props=['C20'])),
         ('num_dims', dict(ret='r', props=['C20'], spec='''
 ensures r == (match *self {
     Type::QubitArray(d) => (match d { ArrayDims::D1(..) => 1usize, ArrayDims::D2(..) => 2usize, ArrayDims::D3(..) => 3usize }),
